@@ -28,6 +28,7 @@ type Report struct {
 	Assumptions []string
 	Notes       []string
 	Fatal       []string // unresolved anchors etc.: fail the check
+	Extra       map[string]any
 }
 
 func newReport(prop string) *Report {
@@ -210,6 +211,9 @@ func (r *Report) finish(verifDir, tier string, seed int, start time.Time, explan
 	failing = append(failing, violations...)
 	cov["failing_obligations"] = failing
 	for k, v := range extra {
+		cov[k] = v
+	}
+	for k, v := range r.Extra {
 		cov[k] = v
 	}
 	ev := evidence{PropertyID: r.Property, Tier: tier, Seed: seed, Level: "other", Coverage: cov,
